@@ -67,6 +67,12 @@ def run(ctx):
             acc = rng.uniform(0.1, 0.95)
             xs += [1.0 if rng.random() < acc else 0.0 for _ in range(rng.randint(20, 150))]
         traces.append(D.run(p, [("update", x) for x in xs[:ln]], accuracy=True))
+        if i % 4 == 0:
+            # the same 0/1 indicator stream given to ADWIN itself, as booleans (`det.update(y_true == y_pred)`), ints or floats
+            w = {"seed": rng.randrange(10 ** 6), "kinds": [rng.choice(["bool", "npbool", "boolarray", "scalar", "intarray"])]}
+            t = D.run(p, [("update", x) for x in xs[:ln]], wrap_of(w))
+            t["wrap"] = w
+            traces.append(t)
     ctx.validate("Adwin", traces, "ADWINAccuracy on indicator streams", sabotage=D.sabotage, replay=replayer(traces),
                  nontrivial=lambda t: sum(1 for e in t["ev"] if e["state"] == "drift") >= 1)
     ctx.assumptions += ["mean()/variance() are compared with relative tolerance 1e-7 against the mean / population variance of the window the specification holds",
